@@ -12,6 +12,10 @@ TRUSTED = [
 ]
 
 
+# both verifying modes must enforce the relation (with or without a seed in the statement)
+VMODES = ["VerifyOnly", "RecoverAndVerify"]
+
+
 def gen_specs(run):
     rng = run.rng
     quick = run.tier == "quick"
@@ -39,18 +43,18 @@ def gen_specs(run):
                 derived.append({"from": 0, "ops": [{"op": kind, "idx": rng.randrange(k)}]})
         verifies = [{"mode": "VerifyOnly", "vmembers": [gen.vmember(mem, 0)]}]
         for di in range(len(derived)):
-            verifies.append({"mode": "VerifyOnly", "vmembers": [gen.vmember(mem, 1 + di)]})
+            verifies.append({"mode": rng.choice(VMODES), "vmembers": [gen.vmember(mem, 1 + di)]})
         # shifted statements under the unchanged proof: V_j + delta*H, promise +/- 1
         j = rng.randrange(m)
         shifted = gen.stmt_of(mem)
         shifted["commit"][j] = {"open": shifted["commit"][j], "shiftH": gen.hx(1)}
-        verifies.append({"mode": "VerifyOnly", "vmembers": [{"proof": 0, "stmt": shifted, "ctx": mem["ctx"]}], "_expect": "err", "_why": "commitment shifted by H"})
+        verifies.append({"mode": rng.choice(VMODES), "vmembers": [{"proof": 0, "stmt": shifted, "ctx": mem["ctx"]}], "_expect": "err", "_why": "commitment shifted by H"})
         sp = gen.stmt_of(mem)
         p = sp["promises"][j]
         newp = 1 if p is None else (int(p) + 1 if int(p) + 1 < (1 << b) else int(p) - 1)
         if newp >= 0 and not (p is None and newp == 0) and newp < (1 << b):
             sp["promises"][j] = str(newp)
-            verifies.append({"mode": "VerifyOnly", "vmembers": [{"proof": 0, "stmt": sp, "ctx": mem["ctx"]}], "_expect": "err", "_why": "promise changed"})
+            verifies.append({"mode": rng.choice(VMODES), "vmembers": [{"proof": 0, "stmt": sp, "ctx": mem["ctx"]}], "_expect": "err", "_why": "promise changed"})
         specs.append({"id": f"c02-{i}", "group": "fm", "members": [mem], "derived": derived, "verifies": verifies, "_conf": [b, m, T]})
     # adversarially structured batches: two cooperating malformed proofs whose defects are equal and opposite on one blinding coordinate
     for bi in range(3 if quick else 30):
@@ -67,7 +71,7 @@ def gen_specs(run):
         vm_a[0] = gen.vmember(mems[0], n)
         vm_a[1] = gen.vmember(mems[1], n + 1)
         specs.append({"id": f"c02-batch-{bi}", "group": "fm", "members": mems, "derived": derived,
-                      "verifies": [{"mode": "VerifyOnly", "vmembers": vm_h}, {"mode": "VerifyOnly", "vmembers": vm_a, "_expect": "err", "_why": "cooperating +-delta on d1 in one batch"}],
+                      "verifies": [{"mode": "VerifyOnly", "vmembers": vm_h}, {"mode": rng.choice(VMODES), "vmembers": vm_a, "_expect": "err", "_why": "cooperating +-delta on d1 in one batch"}],
                       "_conf": [b, n, T]})
     return specs
 
